@@ -447,8 +447,15 @@ impl<B: ByteOrder> StringDecoder for Utf16Decoder<B> {
             .chunks_exact(2)
             // Find the position of the delimiter
             .position(|chunk| chunk == delimiter.as_ref())
-            // If the delimiter is not found, use the whole data, otherwise use the position of the delimiter
-            .map_or(data.len(), |pos| pos * 2);
+            // If the delimiter is not found, use the whole data (without a trailing odd byte), otherwise use
+            // the position of the delimiter
+            .map(|pos| pos * 2);
+
+        // Without a delimiter the string runs to the end of the data and there is no delimiter to skip
+        let (position, consumed) = match position {
+            Some(position) => (position, position + 2),
+            None => (data.len() - data.len() % 2, data.len()),
+        };
 
         // Create a buffer of u16 values to hold the decoded characters
         let mut paired_buf: Vec<u16> = vec![0; position / 2];
@@ -460,8 +467,8 @@ impl<B: ByteOrder> StringDecoder for Utf16Decoder<B> {
         let result = String::from_utf16(&paired_buf).map_err(|e| PacketBad.context(e))?;
 
         // Update the cursor position
-        // The +2 accounts for the delimiter
-        *cursor += position + 2;
+        // (this accounts for the delimiter when there was one)
+        *cursor += consumed;
 
         Ok(result)
     }
